@@ -58,6 +58,23 @@ fn gen_payload(ch: &mut Choices, form: u16, cfg: &Cfg, depth: u32) -> AV {
     }
 }
 
+/// Which section-offset classes an attribute name may be normalised to (DWARF 5 table 7.5 and the GNU extensions).
+/// Names not listed keep a plain section offset.
+fn secoff_target_allowed(name: u16, target: &str) -> bool {
+    match name {
+        0x10 => target == "DebugLineRef",
+        0x43 => target == "DebugMacinfoRef",
+        0x79 | 0x2119 => target == "DebugMacroRef",
+        0x55 | 0x2c => target == "RangeListsRef",
+        0x72 => target == "DebugStrOffsetsBase",
+        0x73 | 0x2133 => target == "DebugAddrBase",
+        0x74 | 0x2132 => target == "DebugRngListsBase",
+        0x8c => target == "DebugLocListsBase",
+        // every other name that takes a section offset takes a location list
+        _ => target == "LocationListsRef",
+    }
+}
+
 pub struct AttrCase {
     pub cfg: Cfg,
     pub specs: Vec<(u16, u16, i64)>,
@@ -154,6 +171,11 @@ pub fn check_attrs(c: &AttrCase, cx: &mut Ctx) -> R {
         // (d) normalisation
         let val = canon_av(&attr.value());
         ensure!(normalisation_preserves(&got, &val), "c03/value/payload-changed", "name {:#x} form {:#x}: raw {} -> value {}", c.specs[i].0, c.specs[i].1, got, val);
+        // a section offset may only be given the target section that the attribute name stands for
+        if got.starts_with("SecOffset(") && val != got {
+            let target = val.split('(').next().unwrap_or("");
+            ensure!(secoff_target_allowed(c.specs[i].0, target), "c03/value/retargeted", "name {:#x}: the section offset {} was normalised to {}, which is not what this attribute refers to", c.specs[i].0, got, val);
+        }
         if let Some(w) = expected_value(c.specs[i].0, &got) {
             ensure_eq!(val, w, "c03/value/class", "name {:#x} raw {}", c.specs[i].0, got);
         }
